@@ -82,7 +82,9 @@ def segments(r, answer, style):
 def make_session(r, nexch, ctx):
     """returns (script args, expectations)"""
     client, server = H.CLIENT, r.choice([H.SERVER, [1, None, True], [200, 300, True]])
-    pending = [build([1, client, server, b"", False, True, 0, 0]).to_bytes()]          # UA for the SNRM
+    # the UA may carry negotiated parameters; a maximum information length of 126 puts the flag byte inside the UA
+    ua_info = r.choice([b"", b"", b"\x81\x80\x12\x05\x01\x7e\x06\x01\x7e\x07\x04\x00\x00\x00\x01\x08\x04\x00\x00\x00\x01", b"\x7e", b"\x7e\x7e\x00"])
+    pending = [build([1, client, server, ua_info, False, True, 0, 0]).to_bytes()]          # UA for the SNRM
     ops = [[0]]
     ns = nr = 0          # information frames sent by the client / received by the client
     expect = []
@@ -105,7 +107,7 @@ def make_session(r, nexch, ctx):
                 rrs.append(nr % 8)
         ops.append([1, req])
         expect.append({"request": req, "answer": answer, "nseg": len(segs), "rr_numbers": rrs})
-    pending.append(build([1, client, server, b"", False, True, 0, 0]).to_bytes())      # UA for the DISC
+    pending.append(build([1, client, server, r.choice([b"", ua_info]), False, True, 0, 0]).to_bytes())      # UA for the DISC
     ops.append([2])
     gran = r.choice(["whole", "whole", "mixed", "bytes"])
     total = sum(len(p) for p in pending)
